@@ -85,6 +85,10 @@ impl WasmEngine {
 
     /// Execute a named function
     pub fn execute_function(&mut self, name: &str, args: &[Word]) -> Result<Vec<Word>, String> {
+        #[cfg(feature = "verif-hooks")]
+        if crate::verif::failpoint_hit(name) {
+            return Err("verif-hooks: injected fault".to_string());
+        }
         let module = self
             .current_module
             .as_mut()
